@@ -195,7 +195,7 @@ Lemma arr_body d j n r v rest : sound d -> Forall byte r ->
   exists l b, v = Arr l /\ r = b ++ rest /\ EncList l b /\ len l = n.
 Proof.
   intros Hd Hb H. unbind H as l0 r0 E. injection H as <- <-.
-  destruct (items_sound _ Hd _ _ _ _ _ Hb E) as (b & -> & HE & Hl). eauto.
+  destruct (items_sound _ Hd _ _ _ _ _ Hb E) as (b & -> & HE & Hl). exists l0, b. auto.
 Qed.
 
 Lemma map_body d j n r v rest : sound d -> Forall byte r ->
@@ -203,7 +203,7 @@ Lemma map_body d j n r v rest : sound d -> Forall byte r ->
   exists l b, v = Map l /\ r = b ++ rest /\ EncPairs l b /\ len l = n.
 Proof.
   intros Hd Hb H. unbind H as l0 r0 E. injection H as <- <-.
-  destruct (pairs_sound _ Hd _ _ _ _ _ Hb E) as (b & -> & HE & Hl). eauto.
+  destruct (pairs_sound _ Hd _ _ _ _ _ Hb E) as (b & -> & HE & Hl). exists l0, b. auto.
 Qed.
 
 (* a sized format: a k-byte number then the body *)
@@ -239,27 +239,27 @@ Proof.
   - injection H as <- <-. exists [c]. split; [reflexivity|]. replace c with 195 by lia. constructor.
   - (* bin 8 *) replace c with 196 by lia. sized H Hr as n Hlt Hr'.
     destruct (bin_body _ _ _ _ H) as (s & -> & -> & Hl).
-    exists ((196 :: be 1 n) ++ s). split; [simpl; rewrite <- app_assoc; reflexivity|].
+    exists ((196 :: be 1 n) ++ s). split; [rewrite <- app_assoc; reflexivity|].
     apply E_bin. rewrite Hl. apply BH_8. exact Hlt.
   - replace c with 197 by lia. sized H Hr as n Hlt Hr'.
     destruct (bin_body _ _ _ _ H) as (s & -> & -> & Hl).
-    exists ((197 :: be 2 n) ++ s). split; [simpl; rewrite <- app_assoc; reflexivity|].
+    exists ((197 :: be 2 n) ++ s). split; [rewrite <- app_assoc; reflexivity|].
     apply E_bin. rewrite Hl. apply BH_16. exact Hlt.
   - replace c with 198 by lia. sized H Hr as n Hlt Hr'.
     destruct (bin_body _ _ _ _ H) as (s & -> & -> & Hl).
-    exists ((198 :: be 4 n) ++ s). split; [simpl; rewrite <- app_assoc; reflexivity|].
+    exists ((198 :: be 4 n) ++ s). split; [rewrite <- app_assoc; reflexivity|].
     apply E_bin. rewrite Hl. apply BH_32. exact Hlt.
   - (* ext 8 *) replace c with 199 by lia. sized H Hr as n Hlt Hr'.
     destruct (ext_body _ _ _ _ Hr' H) as (ty & d & -> & -> & Hty & Hl).
-    exists ((199 :: be 1 n) ++ ty :: d). split; [simpl; rewrite <- app_assoc; reflexivity|].
+    exists ((199 :: be 1 n) ++ ty :: d). split; [rewrite <- app_assoc; reflexivity|].
     apply E_ext; [exact Hty|]. rewrite Hl. apply XH_8. exact Hlt.
   - replace c with 200 by lia. sized H Hr as n Hlt Hr'.
     destruct (ext_body _ _ _ _ Hr' H) as (ty & d & -> & -> & Hty & Hl).
-    exists ((200 :: be 2 n) ++ ty :: d). split; [simpl; rewrite <- app_assoc; reflexivity|].
+    exists ((200 :: be 2 n) ++ ty :: d). split; [rewrite <- app_assoc; reflexivity|].
     apply E_ext; [exact Hty|]. rewrite Hl. apply XH_16. exact Hlt.
   - replace c with 201 by lia. sized H Hr as n Hlt Hr'.
     destruct (ext_body _ _ _ _ Hr' H) as (ty & d & -> & -> & Hty & Hl).
-    exists ((201 :: be 4 n) ++ ty :: d). split; [simpl; rewrite <- app_assoc; reflexivity|].
+    exists ((201 :: be 4 n) ++ ty :: d). split; [rewrite <- app_assoc; reflexivity|].
     apply E_ext; [exact Hty|]. rewrite Hl. apply XH_32. exact Hlt.
   - (* float 32 *) replace c with 202 by lia. sized H Hr as n Hlt Hr'. injection H as <- <-.
     exists (202 :: be 4 n). split; [reflexivity|]. apply E_f32. exact Hlt.
@@ -314,31 +314,31 @@ Proof.
     exists ([216] ++ ty :: d). split; [reflexivity|]. apply E_ext; [exact Hty|]. rewrite Hl. constructor.
   - (* str 8 *) replace c with 217 by lia. sized H Hr as n Hlt Hr'.
     destruct (str_body _ _ _ _ H) as (s & -> & -> & Hl).
-    exists ((217 :: be 1 n) ++ s). split; [simpl; rewrite <- app_assoc; reflexivity|].
+    exists ((217 :: be 1 n) ++ s). split; [rewrite <- app_assoc; reflexivity|].
     apply E_str. rewrite Hl. apply SH_8. exact Hlt.
   - replace c with 218 by lia. sized H Hr as n Hlt Hr'.
     destruct (str_body _ _ _ _ H) as (s & -> & -> & Hl).
-    exists ((218 :: be 2 n) ++ s). split; [simpl; rewrite <- app_assoc; reflexivity|].
+    exists ((218 :: be 2 n) ++ s). split; [rewrite <- app_assoc; reflexivity|].
     apply E_str. rewrite Hl. apply SH_16. exact Hlt.
   - replace c with 219 by lia. sized H Hr as n Hlt Hr'.
     destruct (str_body _ _ _ _ H) as (s & -> & -> & Hl).
-    exists ((219 :: be 4 n) ++ s). split; [simpl; rewrite <- app_assoc; reflexivity|].
+    exists ((219 :: be 4 n) ++ s). split; [rewrite <- app_assoc; reflexivity|].
     apply E_str. rewrite Hl. apply SH_32. exact Hlt.
   - (* array 16 *) replace c with 220 by lia. sized H Hr as n Hlt Hr'.
     destruct (arr_body _ _ _ _ _ _ IH Hr' H) as (l & b & -> & -> & HE & Hl).
-    exists ((220 :: be 2 n) ++ b). split; [simpl; rewrite <- app_assoc; reflexivity|].
+    exists ((220 :: be 2 n) ++ b). split; [rewrite <- app_assoc; reflexivity|].
     apply E_arr; [|exact HE]. rewrite Hl. apply AH_16. exact Hlt.
   - replace c with 221 by lia. sized H Hr as n Hlt Hr'.
     destruct (arr_body _ _ _ _ _ _ IH Hr' H) as (l & b & -> & -> & HE & Hl).
-    exists ((221 :: be 4 n) ++ b). split; [simpl; rewrite <- app_assoc; reflexivity|].
+    exists ((221 :: be 4 n) ++ b). split; [rewrite <- app_assoc; reflexivity|].
     apply E_arr; [|exact HE]. rewrite Hl. apply AH_32. exact Hlt.
   - (* map 16 *) replace c with 222 by lia. sized H Hr as n Hlt Hr'.
     destruct (map_body _ _ _ _ _ _ IH Hr' H) as (l & b & -> & -> & HE & Hl).
-    exists ((222 :: be 2 n) ++ b). split; [simpl; rewrite <- app_assoc; reflexivity|].
+    exists ((222 :: be 2 n) ++ b). split; [rewrite <- app_assoc; reflexivity|].
     apply E_map; [|exact HE]. rewrite Hl. apply MH_16. exact Hlt.
   - replace c with 223 by lia. sized H Hr as n Hlt Hr'.
     destruct (map_body _ _ _ _ _ _ IH Hr' H) as (l & b & -> & -> & HE & Hl).
-    exists ((223 :: be 4 n) ++ b). split; [simpl; rewrite <- app_assoc; reflexivity|].
+    exists ((223 :: be 4 n) ++ b). split; [rewrite <- app_assoc; reflexivity|].
     apply E_map; [|exact HE]. rewrite Hl. apply MH_32. exact Hlt.
   - (* negative fixint *)
     injection H as <- <-. exists [c]. split; [reflexivity|]. apply E_int.
@@ -356,4 +356,65 @@ Proof.
   intros Hb. split.
   - intros H. destruct (spec_sound _ _ _ Hb H) as (b' & E & HE). rewrite app_nil_r in E. subst. exact HE.
   - intros H. rewrite <- (app_nil_r b). apply spec_complete. exact H.
+Qed.
+
+(* ---------------------------------------------------------------- what is written are bytes *)
+
+Lemma int_enc_bytes z b : IntEnc z b -> Forall byte b.
+Proof.
+  intros H. destruct H; (constructor; [unfold byte; lia | first [apply Forall_nil | apply be_bytes]]).
+Qed.
+
+Lemma bytes_ok_forall s : bytes_ok s = true -> Forall byte s.
+Proof.
+  unfold bytes_ok. rewrite forallb_forall, Forall_forall. intros H x Hx. apply N.ltb_lt. apply H. exact Hx.
+Qed.
+
+Lemma enc_bytes_mut :
+  (forall v b, Enc v b -> wf v = true -> Forall byte b) /\
+  (forall l bs, EncList l bs -> forallb wf l = true -> Forall byte bs) /\
+  (forall kvs bs, EncPairs kvs bs ->
+     forallb (fun kv => wf (fst kv) && wf (snd kv)) kvs = true -> Forall byte bs).
+Proof.
+  apply Enc_mutind.
+  - intros _. repeat constructor.
+  - intros _. repeat constructor.
+  - intros _. repeat constructor.
+  - intros z b H _. exact (int_enc_bytes z b H).
+  - intros x _ _. constructor; [unfold byte; lia|apply be_bytes].
+  - intros x _ _. constructor; [unfold byte; lia|apply be_bytes].
+  - intros s h Hh Hwf. rewrite wf_str in Hwf.
+    apply andb_true_iff in Hwf. destruct Hwf as [Hwf _]. apply andb_true_iff in Hwf. destruct Hwf as [_ Hb].
+    apply Forall_app. split; [|apply bytes_ok_forall; exact Hb].
+    destruct Hh; (constructor; [unfold byte; lia | first [apply Forall_nil | apply be_bytes]]).
+  - intros s h Hh Hwf. simpl in Hwf. apply andb_true_iff in Hwf. destruct Hwf as [Hb _].
+    apply Forall_app. split; [|apply bytes_ok_forall; exact Hb].
+    destruct Hh; (constructor; [unfold byte; lia | first [apply Forall_nil | apply be_bytes]]).
+  - intros ty d h Hty Hh Hwf. rewrite wf_ext in Hwf.
+    apply andb_true_iff in Hwf. destruct Hwf as [Hwf _]. apply andb_true_iff in Hwf. destruct Hwf as [_ Hb].
+    apply Forall_app. split.
+    + destruct Hh; (constructor; [unfold byte; lia | first [apply Forall_nil | apply be_bytes]]).
+    + constructor; [unfold byte; lia|apply bytes_ok_forall; exact Hb].
+  - intros l h b Hh _ IH Hwf. rewrite wf_arr in Hwf. apply andb_true_iff in Hwf. destruct Hwf as [Hwf _].
+    apply Forall_app. split; [|apply IH; exact Hwf].
+    destruct Hh; (constructor; [unfold byte; lia | first [apply Forall_nil | apply be_bytes]]).
+  - intros kvs h b Hh _ IH Hwf. rewrite wf_map in Hwf.
+    apply andb_true_iff in Hwf. destruct Hwf as [Hwf _].
+    apply andb_true_iff in Hwf. destruct Hwf as [Hwf _].
+    apply andb_true_iff in Hwf. destruct Hwf as [Hwf _].
+    apply Forall_app. split; [|apply IH; exact Hwf].
+    destruct Hh; (constructor; [unfold byte; lia | first [apply Forall_nil | apply be_bytes]]).
+  - intros _. constructor.
+  - intros v l b bs _ IHv _ IHl Hwf. simpl in Hwf. apply andb_true_iff in Hwf. destruct Hwf as [Hv Hl].
+    apply Forall_app. split; [apply IHv; exact Hv|apply IHl; exact Hl].
+  - intros _. constructor.
+  - intros k v l bk bv bs _ IHk _ IHv _ IHl Hwf. simpl in Hwf.
+    apply andb_true_iff in Hwf. destruct Hwf as [Hkv Hl].
+    apply andb_true_iff in Hkv. destruct Hkv as [Hk Hv].
+    apply Forall_app. split; [apply IHk; exact Hk|]. apply Forall_app. split; [apply IHv; exact Hv|apply IHl; exact Hl].
+Qed.
+
+Theorem encode_bytes v b : wf v = true -> encode v = Some b -> Forall (fun x => x < 256) b.
+Proof.
+  intros Hwf H. apply (proj1 enc_bytes_mut v b); [|exact Hwf]. apply encode_conforms; assumption.
 Qed.
